@@ -95,6 +95,53 @@ Theorem C07_exhaustion_fallback : forall (s : st),
 Proof. exact exhaustion_fallback_thm. Qed.
 Print Assumptions C07_exhaustion_fallback.
 
+(* The runtime-level multishot stream (SubmitMultiStream over SubmitMultiManaged)
+   reports exhaustion to its consumer.  io_uring: with the ring empty, the
+   stream's operation in flight and nothing unreaped, the kernel answers
+   -ENOBUFS, the driver stores ResourceBusy as the operation's result, the
+   managed stream turns that into an error item and the re-submission loop
+   returns it from next() — also after any number n of earlier re-submissions. *)
+Theorem C07_stream_reports_exhaustion : forall (size : nat) (s0 : st) (ls : list label) (s : st) (k : nat) (o : opst),
+  1 <= size -> (NN size <= 32768)%N ->
+  pool_new true size = Ok s0 -> steps s0 ls = Some (Ok s) -> released s = false ->
+  ring_ids s = [] -> cq s = [] ->
+  nth_error (ops s) k = Some o -> o_inflight o = true -> o_kdone o = false ->
+  exists s', steps s [LKernel k false false RNoBufs; LCqe] = Some (Ok s') /\
+    nbusy s' = S (nbusy s) /\
+    (exists o', nth_error (ops s') k = Some o' /\ o_res o' = Some RNoBufs /\
+       forall n rest f,
+         stream_poll true false (rearm n ++ AInner (managed_poll (RawFinal RNoBufs (hd_error (o_buf o'))) f) :: rest)
+         = (SErr RNoBufs, true)).
+Proof. exact c07_stream_reports_exhaustion. Qed.
+Print Assumptions C07_stream_reports_exhaustion.
+
+(* Fallback pool: the free queue is empty, BufferPool::pop inside
+   factory.create() fails with ResourceBusy and next() returns that error
+   (with or without an operation that just ended) instead of looping. *)
+Theorem C07_stream_reports_exhaustion_fallback : forall (s : st),
+  uring s = false -> released s = false -> queue s = [] ->
+  step s LPop = Some (Ok (set_nbusy s (S (nbusy s)))) /\
+  forall n rest,
+    stream_poll true false (rearm n ++ AInner MEnd :: ACreate (Some RNoBufs) :: rest) = (SErr RNoBufs, false) /\
+    stream_poll false false (ACreate (Some RNoBufs) :: rest) = (SErr RNoBufs, false).
+Proof. exact stream_reports_exhaustion_fallback. Qed.
+Print Assumptions C07_stream_reports_exhaustion_fallback.
+
+(* Any error item of the installed operation and any error of factory.create()
+   is what next() returns, after any number of re-submissions ... *)
+Theorem C07_stream_forwards_errors : forall (n : nat) (r : rescls) (rest : list sans),
+  stream_poll true false (rearm n ++ AInner (MErr r) :: rest) = (SErr r, true) /\
+  stream_poll true false (rearm n ++ AInner MEnd :: ACreate (Some r) :: rest) = (SErr r, false) /\
+  stream_poll false false (ACreate (Some r) :: rest) = (SErr r, false).
+Proof. exact c07_stream_forwards. Qed.
+Print Assumptions C07_stream_forwards_errors.
+
+(* ... and next() is Pending only when the installed operation itself is *)
+Theorem C07_stream_pending_only_inner : forall (sched : list sans) (has c h : bool),
+  stream_poll has c sched = (SPending, h) -> In (AInner MPending) sched.
+Proof. exact stream_pending_only_inner. Qed.
+Print Assumptions C07_stream_pending_only_inner.
+
 (* No reachable step panics: the `expect("Buffer should not be in use")` of
    set_result, the `expect("Buffer should be available")` of pop, the checked u16
    addition and the slice index of add_buffer never fire. *)
@@ -225,3 +272,22 @@ Example C07_defaults :
   exists s0, default_pool = Ok s0 /\ nbuf s0 = 8 /\ default_buf_len = 8192%N /\ buf_group = 1%N.
 Proof. eexists. split; [vm_compute; reflexivity|]. repeat split; vm_compute; reflexivity. Qed.
 Print Assumptions C07_defaults.
+
+(* the stream on a ring of one buffer held by the consumer: the operation ends
+   with ResourceBusy, and the loop — having re-created its operation twice
+   before — returns the error; a swallowing loop would need a further answer *)
+Example C07_nonvacuous_stream :
+  exists s0 s, pool_new true 1 = Ok s0 /\
+    steps s0 [LOpNew; LSubmit 0; LKernel 0 true true ROk; LCqe; LPopMs 0; LTakeLoose 0] = Some (Ok s) /\
+    owners s 0 = [OwHandle 0] /\ ring_ids s = [] /\ cq s = [] /\
+    exists s', steps s [LKernel 0 false false RNoBufs; LCqe] = Some (Ok s') /\
+      (exists o, nth_error (ops s') 0 = Some o /\ o_res o = Some RNoBufs) /\
+      stream_poll true false (rearm 2 ++ [AInner (managed_poll (RawFinal RNoBufs None) (fun _ => false))])
+        = (SErr RNoBufs, true) /\
+      stream_poll true false (rearm 2 ++ [AInner MPending]) = (SPending, true).
+Proof.
+  eexists. eexists. split; [vm_compute; reflexivity|]. repeat (split; [vm_compute; reflexivity|]).
+  eexists. split; [vm_compute; reflexivity|]. split; [eexists; split; vm_compute; reflexivity|].
+  split; vm_compute; reflexivity.
+Qed.
+Print Assumptions C07_nonvacuous_stream.
